@@ -108,28 +108,45 @@ def run(ctx, config):
         r2.brk("allocation in ev_token_bucket_cfg_new not found")
     else:
         a = allocs[0]
-        gs = [negate_truth(c, t) for c, t, _ in g.guards_at(a.bid)]
-        names = [p[0] for p in g.params[:4]]   # read_rate, read_burst, write_rate, write_burst
-        def has(pred):
-            return any(pred(strip(c), t) for c, t in gs)
-        def cmp_(c, op, a_, b_):
-            return is_e(c, "bin") and c[1] == op and eq(strip(c[2]), a_) and (eq(strip(c[3]), b_) if isinstance(b_, list) else (is_e(strip(c[3]), "int") and strip(c[3])[1] == b_))
-        V = lambda n: ["var", n, "param"]
-        need = {
-            "read_rate<=read_burst": has(lambda c, t: (not t) and cmp_(c, ">", V(names[0]), V(names[1]))),
-            "write_rate<=write_burst": has(lambda c, t: (not t) and cmp_(c, ">", V(names[2]), V(names[3]))),
-            "read_rate>=1": has(lambda c, t: (not t) and cmp_(c, "<", V(names[0]), 1)),
-            "write_rate>=1": has(lambda c, t: (not t) and cmp_(c, "<", V(names[2]), 1)),
-        }
-        for n in names:
-            need["%s<=EV_RATE_LIMIT_MAX" % n] = has(lambda c, t, n=n: (not t) and is_e(c, "bin") and c[1] == ">" and eq(strip(c[2]), V(n)) and is_e(strip(c[3]), "int") and strip(c[3])[1] >= 0x7fffffff)
-        need["msec_per_tick!=0"] = has(lambda c, t: t and eq(c, ["var", "msec_per_tick", "local"]))
-        need["tick_sec>=0"] = has(lambda c, t: (not t) and is_e(c, "bin") and c[1] == "<" and any(is_e(q, "fld") and q[2].endswith("tv_sec") for q in walk(c)))
-        need["tick_sec<=INT_MAX/1000"] = has(lambda c, t: (not t) and is_e(c, "bin") and c[1] == ">" and any(is_e(q, "fld") and q[2].endswith("tv_sec") for q in walk(c)))
-        for k, v in need.items():
-            r2.inst(("rej", k), {"required_before_allocation": k, "dominates": v})
-            if not v:
-                r2.bad("K4:ev_token_bucket_cfg_new:missing-rejection:%s" % k, a.where(), g.name, "the configuration is allocated without the rejection test that guarantees %s" % k)
+        # which configurations are accepted: decided by evaluating the function, not by the spelling of its tests
+        from ..prog import PPtr
+        MAXR = (1 << 63) - 1
+        INTMAX = (1 << 31) - 1
+        vals = (0, 1, 5, MAXR, MAXR + 1)
+        ticks = [(1, 0), (0, 0), (0, 500), (0, 1000), (-1, 0), (INTMAX // 1000, 0), (INTMAX // 1000 + 1, 0)]
+        combos = [(rr, rb, wr, wb, (1, 0)) for rr in vals for rb in vals for wr in vals for wb in vals] + [(1, 5, 1, 5, t) for t in ticks]
+        names = [p[0] for p in g.params[:5]]
+        nb = 0
+        for rr, rb, wr, wb, (sec, usec) in combos:
+            env = {"#typed": 1, "event_debug_logging_mask_": 0, names[0]: rr, names[1]: rb, names[2]: wr, names[3]: wb, names[4]: PPtr("tv"), ("@", "tv", "timeval.tv_sec"): sec, ("@", "tv", "timeval.tv_usec"): usec}
+
+            def hook(el, e_):
+                n = callee_name(el.e)
+                if n in ("event_mm_calloc_", "calloc", "event_mm_malloc_"):
+                    e_[("@", "cfg", "#zero")] = 1
+                    return PPtr("cfg")
+                if n in ("memcpy", "__builtin_memcpy", "__builtin___memcpy_chk"):
+                    return 0
+                return None
+            got = set()
+            for o in run_all(g, (g.entry, 0), env, lambda el: False, P, hook, max_steps=400):
+                if o.kind == "exit" and o.why == "noreturn":
+                    continue
+                if o.kind != "ret":
+                    r2.brk("ev_token_bucket_cfg_new%r: %s %s" % ((rr, rb, wr, wb, sec, usec), o.kind, o.why))
+                    break
+                try:
+                    got.add(isinstance(evalx(normx(o.at.e[1]), o.env, P), PPtr))
+                except EvalError as ex:
+                    r2.brk("ev_token_bucket_cfg_new: return value: %s" % ex)
+                    break
+            msec = (sec * 1000 + (usec & 0x000fffff) // 1000) if 0 <= sec <= INTMAX // 1000 else 0
+            want = rr <= rb and wr <= wb and rr >= 1 and wr >= 1 and max(rr, rb, wr, wb) <= MAXR and 0 <= sec <= INTMAX // 1000 and msec != 0
+            r2.inst(("cfg", rr, rb, wr, wb, sec, usec), {"read_rate": rr, "read_burst": rb, "write_rate": wr, "write_burst": wb, "tick": [sec, usec], "accepted": sorted(got)} if nb < 4 else None)
+            if got and got != {want} and nb < 6:
+                nb += 1
+                r2.bad("K4:ev_token_bucket_cfg_new:accepts", a.where(), g.name, "rates %d/%d, bursts %d/%d, tick %d.%06d s: %s; a configuration is valid iff 1 <= rate <= burst <= EV_RATE_LIMIT_MAX for both directions and the tick is 1 ms .. INT_MAX/1000 s" % (
+                    rr, wr, rb, wb, sec, usec, "accepted" if True in got else "refused"))
     h = P.fn("ev_token_bucket_init_")
     for b in h.branch_blocks():
         c = strip(b.term["cond"])
